@@ -41,6 +41,29 @@ Fixpoint map_opt {A B} (f : A -> option B) (l : list A) : option (list B) :=
   | x :: r => match f x, map_opt f r with Some y, Some ys => Some (y :: ys) | _, _ => None end
   end.
 
+(* the Maximum Length sub-item is looked up by its type, wherever it stands among the user-information sub-items
+   (find_max_length_sub_item); the acceptor overwrites the value of that very sub-item in its reply and, when the
+   requestor announced nothing (= no limit), puts a new sub-item in front *)
+Fixpoint find_maxlen (subs : list subitem) : option N :=
+  match subs with
+  | [] => None
+  | MaxLen _ _ peer :: _ => Some peer
+  | _ :: r => find_maxlen r
+  end.
+
+Fixpoint set_maxlen (v : N) (subs : list subitem) : list subitem :=
+  match subs with
+  | [] => []
+  | MaxLen mr ml _ :: r => MaxLen mr ml v :: r
+  | s :: r => s :: set_maxlen v r
+  end.
+
+Definition peer_announced (subs : list subitem) : N :=
+  match find_maxlen subs with Some p => p | None => 0 end.
+
+Definition announce (v : N) (subs : list subitem) : list subitem :=
+  match find_maxlen subs with Some _ => set_maxlen v subs | None => MaxLen 0 4 v :: subs end.
+
 Record accepted := mkacc {
   acc_pdu : pdu;                                   (* the A-ASSOCIATE-AC handed to the provider *)
   acc_table : list (N * bytes * bytes);            (* sop_classes_as_scp / accepted_contexts *)
@@ -51,12 +74,12 @@ Definition accept_pdu (cfg : acfg) (own : N) (rq : pdu) : option accepted :=
   match rq with
   | Assoc _ _ _ _ called calling _ items =>
       match items, last items (AppCtx 0 []) with
-      | first :: _, UserInfo ur (MaxLen mr ml peer :: subs) =>
-          let newmax := eff_limit own peer in
+      | first :: _, UserInfo ur subs =>
+          let newmax := eff_limit own (peer_announced subs) in
           match map_opt (answer_item cfg) (middle items), map_opt proposal_of (middle items) with
           | Some ans, Some props =>
               Some (mkacc (Assoc KAc 0 1 0 called calling [0;0;0;0;0;0;0;0]
-                                 ([first] ++ ans ++ [UserInfo ur (MaxLen mr ml newmax :: subs)]))
+                                 ([first] ++ ans ++ [UserInfo ur (announce newmax subs)]))
                           (served_table props (answers cfg props)) newmax calling)
           | _, _ => None
           end
@@ -84,15 +107,15 @@ Definition answer_of (x : item) : option answer :=
 
 Record replied := mkrep { rep_usable : list (N * bytes * bytes); rep_max : N }.
 
-(* reading the A-ASSOCIATE-AC: maximum length from the first user-data sub-item, accepted contexts *)
+(* reading the A-ASSOCIATE-AC: maximum length from the Maximum Length sub-item (any position), accepted contexts *)
 Definition read_reply (own : N) (ctxs : list (N * bytes)) (ac : pdu) : option replied :=
   match ac with
   | Assoc _ _ _ _ _ _ _ items =>
       match last items (AppCtx 0 []) with
       | UserInfo _ subs =>
-          let newmax := match subs with
-                        | MaxLen _ _ peer :: _ => eff_limit own peer
-                        | _ => own          (* (IndexError is caught; another first sub-item: AttributeError, not modelled) *)
+          let newmax := match find_maxlen subs with
+                        | Some peer => eff_limit own peer
+                        | None => own
                         end in
           match map_opt answer_of (middle items) with
           | Some ans => Some (mkrep (usable ctxs ans) newmax)
